@@ -307,9 +307,16 @@ func (c *Conn) closeRead() {
 	close(c.readReady)
 }
 
-func (c *Conn) closeNoNotify(t xmlstream.Encoder) error {
+// closeNoNotify closes the connection at the request of the peer.
+// It does not report an error: whatever goes wrong while flushing concerns the
+// local writer (bufio.Writer and the base64 encoder keep their first error,
+// e.g. a data packet the peer refused, and report it to the writer's own
+// calls), not the peer's request, which is answered in any case. If the
+// session itself cannot be written to any more, answering the request fails
+// and reports that.
+func (c *Conn) closeNoNotify(t xmlstream.Encoder) {
 	if c.markClosed() {
-		return nil
+		return
 	}
 	defer c.closeRead()
 
@@ -320,19 +327,17 @@ func (c *Conn) closeNoNotify(t xmlstream.Encoder) error {
 	// caller as not written.
 	if !c.writeLock.TryLock() {
 		c.stanzaWriter.aborted.Store(true)
-		return nil
+		return
 	}
 	defer c.writeLock.Unlock()
 
 	// Flush any remaining data to be written, on the encoder we were given (the
 	// session is busy with the request being handled).
 	c.stanzaWriter.t = t
-	err := c.writeBuf.Flush()
-	if err != nil {
-		return err
+	if c.writeBuf.Flush() == nil {
+		/* #nosec */
+		c.closeFlushFunc()
 	}
-
-	return c.closeFlushFunc()
 }
 
 // SetReadBuffer sets the maximum size the internal buffer will be allowed to
